@@ -54,8 +54,8 @@ def ensure_go2v():
     return binp
 
 
-def build_harness(repo, work):
-    """Rebuild the harness against the working tree of `repo` (hooks on)."""
+def build_harness(repo, work, race=False):
+    """Rebuild the harness against the working tree of `repo` (hooks on; with the race detector for C04)."""
     hdir = os.path.join(VERIF, "harness")
     mod = open(os.path.join(hdir, "go.mod")).read()
     mod = re.sub(r"replace github.com/verily-src/fhirpath-go => .*", "replace github.com/verily-src/fhirpath-go => " + repo, mod)
@@ -63,7 +63,13 @@ def build_harness(repo, work):
     open(modfile, "w").write(mod)
     shutil.copy(os.path.join(hdir, "go.sum"), os.path.join(work, "go.sum"))
     binp = os.path.join(work, "fpharness")
-    rc, out = run(["go", "build", "-tags", "verif", "-modfile", modfile, "-o", binp, "."], cwd=hdir, timeout=1500)
+    cmd = ["go", "build", "-tags", "verif", "-modfile", modfile, "-o", binp]
+    if race:
+        cmd.insert(2, "-race")
+    rc, out = run(cmd + ["."], cwd=hdir, timeout=1500, env={"CGO_ENABLED": "1"} if race else None)
+    if rc != 0 and race:
+        # no C toolchain for the race detector: fall back to a plain build (the harness reports race_detector=false)
+        rc, out = run([c for c in cmd if c != "-race"] + ["."], cwd=hdir, timeout=1500)
     if rc != 0:
         raise Infra("building the harness against %s failed:\n%s" % (repo, out))
     return binp
@@ -229,7 +235,7 @@ def check(prop, cfg, tier, seed, repo, work, t0, replay_in):
                 broken.append({"kind": "unchecked-obligation", "theorem": "%s:%s" % (ob, thm or "?"), "log": out[-2000:]})
 
     # ---- 3. Tie B: correspondence --------------------------------------------------------
-    harness = build_harness(repo, work)
+    harness = build_harness(repo, work, race=bool(cfg.get("race")))
     cdir = os.path.join(work, "cases")
     env = {"VERIF_REPO": repo}
     rc, out = run([harness, prop, "-seed", str(seed), "-tier", tier, "-out", cdir], cwd=work,
